@@ -5,7 +5,9 @@
 (* Programs are abstract syntax trees (records, as deserialised from JSON). *)
 (* Expressions: num var aname idx deref un bin asg inc cond comma call      *)
 (* Statements:  expr if while do for switch break continue return block     *)
-(*              load store strobe csleep asm nop                            *)
+(*              load store strobe csleep asm nop decl goto                  *)
+(*              (labels: field "label" of a statement at the top level of a *)
+(*              function body, see RunBody)                                 *)
 (*                                                                          *)
 (* State st: function from variable names to values (scalars: unsigned      *)
 (* integers of the variable's width; arrays: sequences), plus the           *)
